@@ -47,10 +47,13 @@ macro_rules! core_configs {
         // N = 4: the first digit count with two quotient digits above a two-digit divisor
         $m!($run, d8, 4, i128);
         $m!($run, d64, 4, BigRef);
+        // many digits (sparse boundary shapes): a width above 128 bits that is not a power of two with
+        // the narrowest digit, and a 320-bit type with the widest
+        $m!($run, d8, 17, BigRef);
+        $m!($run, d64, 5, BigRef);
         if $run.tier == Tier::Thorough {
             $m!($run, d8, 5, BigRef);
             $m!($run, d8, 8, BigRef);
-            $m!($run, d8, 17, BigRef);
             $m!($run, d8, 32, BigRef);
             $m!($run, d16, 4, BigRef);
             $m!($run, d16, 5, BigRef);
@@ -58,7 +61,6 @@ macro_rules! core_configs {
             $m!($run, d32, 4, BigRef);
             $m!($run, d32, 5, BigRef);
             $m!($run, d32, 10, BigRef);
-            $m!($run, d64, 5, BigRef);
             $m!($run, d64, 8, BigRef);
             $m!($run, d64, 16, BigRef);
             $m!($run, d64, 128, BigRef);
